@@ -10,7 +10,7 @@ CHECKS = {
    text="Every key-taking method of the real CaselessDict (__getitem__ __setitem__ __delitem__ __contains__ has_key get setdefault pop) "
         "and update() is symbolically executed from an arbitrary well-formed view and proved equal (exit kind, result, WHOLE view incl. "
         "insertion order) to the dict operation at up(to_unicode(key)); the representation invariant (only upper-case keys) is preserved on "
-        "every exit, so the statement holds after every operation sequence by induction, with no bound. C-implemented operations "
+        "every exit, so the statement holds after every operation sequence by induction, with no bound. The remaining operations "
         "(constructors, copy, popitem, merge operators, ==, canonical order) are a labelled bounded stand-in.",
    note="Trusted: OrderedDict primitive contracts on raw keys (cross-checked against CPython each run), str.upper idempotent "
         "(checked on all code points each run), the pyvc executor and z3. Bounded only: constructors/copy/popitem/|,|=/fromkeys/==/sorted_keys.",
@@ -110,12 +110,15 @@ CHECKS = {
         "operation logs; tz_name and the provider (tzp.timezone, from_tzinfo) are opaque in the deductive part.",
    technique="contract-based deductive verification: AST->z3 VCs (pyvc) with recursive contracts and segment sequences; bounded stand-in"),
  "C20": dict(
-   category="proof", design_ref="DESIGN.md section 8 C20",
+   category="other", design_ref="DESIGN.md section 8 C20",
    text="Component._walk is proved against its recursive contract (self first iff name/predicate match, then the walks of the "
         "subcomponents in order: pre-order, each nested component exactly once) for a symbolic number of subcomponents; walk upper-cases "
         "the requested name; events/todos/timezones/standard/daylight are walk with the fixed name and the always-true predicate; _walk "
         "writes nothing; __eq__ answers False and never fails for non-components. The algebra of equality and the copy protocols on "
-        "random real trees are a labelled bounded stand-in (known finding C20-F1: kind is not compared).",
+        "random real trees are a labelled bounded stand-in (known finding C20-F1: kind is not compared). 'other' because half of the "
+        "statement - the equality algebra (reflexive, symmetric, order- and case-insensitive, multiset-sensitive) and the copy protocols - "
+        "is only explored: the greedy multiset matching of __eq__ needs == to be an equivalence on the subcomponents (induction on height "
+        "plus a counting argument over a list with deletion), which the engine cannot carry.",
    note="Trusted: induction over tree height; the select predicate is pure; the loop rule with accumulator (vc/pyvc/seqs.py). Bounded only: "
         "reflexive/symmetric/permutation-insensitive/value-sensitive equality, deepcopy/pickle/serialise-and-parse copies.",
    technique="contract-based deductive verification: AST->z3 VCs (pyvc) with a recursive contract; bounded stand-in"),
